@@ -296,7 +296,7 @@ def shrink(c, case, key):
     """Greedy: drop runs / jobs while the same violation key is still found (bounded)."""
     if case["kind"] != "hist":
         return case
-    best, budget = case, 14
+    best, budget = case, 8
 
     def still(cand):
         r = drive(c, [cand], "shr")[0]
@@ -382,7 +382,7 @@ def run(c: Check):
             small = case
             if case["kind"] == "hist":
                 small = dict(kind="hist", runs=case["runs"][:i + 1])
-                if not c.replay:
+                if not c.replay and len(c.violations) < 2:
                     small = shrink(c, small, key)
             c.violation(key, what, dict(case=small, found_in_run=i, original=case, result=res))
     c.samples = [dict(case=cs, result=rs_) for cs, rs_ in good[:3]]
